@@ -283,6 +283,10 @@ def family_alloc(m, tier, add_bench, open_mod, close_mod):
     add_bench(m, path, 4, "out_extern_types", body="quiet", ret_alloc=True, extern="C", types=["TA"], options=[("sample_count", "2"), ("sample_size", "2")])
     add_bench(m, path, 4, "out_args", body="quiet", ret_alloc=True, args="one", options=[("sample_count", "2"), ("sample_size", "2")])
     add_bench(m, path, 4, "out_extern_args", body="quiet", ret_alloc=True, extern="C", args="one", options=[("sample_count", "2"), ("sample_size", "2")])
+    # sizes whose four-significant-digit rendering keeps only zeros after the point (10.00x KB, 100.0x KB, 1.000x MB;
+    # 1025 B is 1.0009 KiB under the binary format): the printed cells must still carry the integer part
+    for size in (10004, 100040, 1000400, 1025):
+        add_bench(m, path, 4, "out_size_%d" % size, body="quiet", ret_alloc=size, options=[("sample_count", "2"), ("sample_size", "2")])
     close_mod(m, 0)
 
 
